@@ -76,6 +76,11 @@ def adjudicate(rep, records, owned, *, trace_module="Trace_Codec", nontrivial=No
         if spec_bugs:
             raise MachineryError(f"the specification contradicts itself on a recorded scenario: {spec_bugs} :: {r['defs']} "
                                  f"mode={r['mode']} start={r.get('start')} input={bytes(r.get('input', [])).hex()}")
+        for c in v:
+            if c.startswith("DRIFT"):
+                rep.count(c)
+                if c not in rep.extra.setdefault("drift_examples", {}):
+                    rep.extra["drift_examples"][c] = r["defs"][:200]
         skips = [c for c in v if c.startswith("SKIP")]
         for s in skips:
             rep.count(s)
@@ -146,11 +151,12 @@ class CodecCheck:
     """A property decided by MC_Codec-style models + Trace_Codec verdicts on the clauses it owns."""
 
     def __init__(self, prop, owned, *, rule, quick_n, thorough_n, cfg=None, both=False, compiled=None, universe_fields=(1, 2),
-                 mc_models=("MC_Codec",), extra=None, nontrivial=None, assumptions=()):
+                 mc_models=("MC_Codec",), extra=None, nontrivial=None, assumptions=(), quick_pairs=200):
         self.prop, self.owned, self.rule = prop, set(owned), rule
         self.quick_n, self.thorough_n = quick_n, thorough_n
         self.cfg, self.both, self.compiled = cfg, both, compiled
         self.universe_fields = universe_fields
+        self.quick_pairs = quick_pairs
         self.mc_models = mc_models
         self.extra = extra
         self.nontrivial = nontrivial or (lambda r: r.get("obs", {}).get("res", {}).get("status") == "ok")
@@ -166,7 +172,13 @@ class CodecCheck:
         for m in self.mc_models:
             run_mc(rep, m, ucases)
         # E2 (a): the same universe through the real library
-        sub = ucases if thorough else rnd.sample(ucases, min(len(ucases), 150))
+        if thorough:
+            sub = ucases
+        else:
+            # quick: the 1-entry universe sampled, plus a sample of the 2-entry universe (neighbour effects: alignment gaps after
+            # bit-field runs, nested structs, dynamic members)
+            two = absyn.universe(2)
+            sub = rnd.sample(ucases, min(len(ucases), 120)) + rnd.sample(two, self.quick_pairs)
         recs = scenarios_from_universe(sub, rnd, both=self.both, compiled=self.compiled,
                                        inputs=("ramp", "ff", "x80", "zero", "rand") if thorough else ("ramp", "rand"))
         # E2 (b): random definitions far beyond the bounds
